@@ -193,6 +193,21 @@ C04_OK(ev) ==
   /\ \A i, j \in T : i # j => TextCovered(ev.doc.elems[i]) \cap TextCovered(ev.doc.elems[j]) = {}
   /\ NonDrawingCells(crs) \subseteq UNION { TextCovered(ev.doc.elems[i]) : i \in T }
 C04_NT(ev) == NonDrawingCells(DrawCells(ev)) # {}
+\* the same on rows that contain quoted strings: a quoted string is shown by one text element anchored at its
+\* opening quote (C15); every other text element shows the characters of the row with the quoted regions blanked
+C04q_OK(ev) ==
+  LET crs == DrawCells(ev)
+      blanked == [r \in 1..Len(crs) |-> BlankQuoted(crs[r])]
+      T == OfKind(ev.doc, "text")
+      Q == { i \in T : IsQuotedText(crs, ev.doc.elems[i]) }
+      P == T \ Q IN
+  /\ ev.doc.wf = 1
+  /\ \A i \in P : TextMatches(blanked, ev.doc.elems[i])
+  /\ \A i, j \in P : i # j => TextCovered(ev.doc.elems[i]) \cap TextCovered(ev.doc.elems[j]) = {}
+  /\ NonDrawingCells(blanked) \subseteq UNION { TextCovered(ev.doc.elems[i]) : i \in P }
+  /\ \A r \in 1..Len(crs) : \A q \in 1..Len(QuotedTexts(crs[r], r)) :
+        LET qt == QuotedTexts(crs[r], r)[q] IN
+        Cardinality({ i \in T : ev.doc.elems[i].n = <<qt[1] * MILLI, qt[2] * MILLI>> /\ ev.doc.elems[i].s = qt[3] }) = 1
 
 ---------------------------------------------------------------------------
 (* C15 — quoted text                                                                        *)
